@@ -36,19 +36,19 @@ CLAIMED = {
             'codec correctness is Python\'s; gb18030 streams where the codec disagrees with itself are dropped', '5 C07', 'codec'),
     'C08': ('model_checking',
             'TLA+ model SendLog (send family, control bytes, encoder state, three logs) checked by TLC; every transition of the dumped graphs (4 transports) taken on fresh real objects with a raw-mode reporting peer; peer bytes, return values, logs compared with the TLC successor state',
-            'TLC proves PeerGotExactly / ReturnValue for all operation sequences in the bound; 87k steps on real pty / fd / popen / socket objects, all 38 control names, payload classes incl. all byte values and 300 kB',
+            'TLC proves PeerGotExactly / ReturnValue / NoSpuriousFailure / FailedSendPrefix for all operation sequences in the bound, including the rest of the object\'s life between the sends (read time-outs, half-close, peer gone, stalled big sends, awaited reads with cancellation); ~104k steps on real pty / fd / popen / socket objects, all 38 control names, payloads up to 4 MB with a gated draining peer, writelines with every iterable form, a descendant reading the pty after the started process has gone',
             'barrier markers written below pexpect delimit what the peer got', '5 C08', 'sendlog'),
     'C09': ('model_checking',
             'TLA+ model Lifecycle (child process table x descriptor x object flags x every lifecycle operation as the code performs it) checked by TLC; operation sequences executed on steered real children (pty, Popen), every trace validated by TLC (LifecycleTrace); sweep over 256 exit codes and all terminating signals x observation paths',
-            'TLC proves ObservedStatusTrue / StatusStable / WaitReturnsCode; ~19k distinct real traces per quick run judged by TLC',
+            'TLC proves ObservedStatusTrue / StatusStable / WaitReturnsCode / NoClaimWithoutStatus (core flag of the fate, a foreign reaper and SIGCHLD ignored in the model); ~24k real operation sequences per quick run judged by TLC (all 256 exit codes, terminating signals incl. real core dumps, status stolen by another waitpid), plus run(withexitstatus) stopping while the child is alive',
             'signal effects awaited with waitid(WNOWAIT); races inside one delayafter* pause are outside the model', '5 C09', 'lifecycle'),
     'C10': ('model_checking',
             'same model: NeverAliveAfterReaped, NeverTerminatedWhileRunning, ForceLeavesDead, CloseIdempotent, NoLeak, AfterCloseIoFails; every operation sequence <= 3 (thorough 4) x dispositions x transports on real children / descriptors / sockets, /proc observations, an intruder dup2\'ed onto a freed descriptor number; traces validated by TLC',
-            'TLC proves the six invariants over all sequences in the bound; ~22k distinct real traces per quick run judged by TLC',
+            'TLC proves the six invariants over all sequences in the bound; ~42k real operation sequences per quick run judged by TLC (log files closed by their owner, descriptors numbered 0-2, a dropped object released by reference counting, no signal to a reaped pid, a dropped fdspawn / SocketSpawn wrapper leaving the caller\'s descriptor alone)',
             'as C09', '5 C10', 'lifecycle'),
     'C11': ('model_checking',
             'same SendLog model: LogReadExact, LogSendExact, LogAllInterleaved, EveryWriteFlushed, LogTypeIsApiType; same walks with recording log objects (value, type, flush count), plus in-process interact() on an outer pty',
-            'TLC proves the log invariants; every transition taken on real objects incl. interact() copy steps',
+            'TLC proves the log invariants (13 in all, incl. FailedSendLogged and TakenExact; 9 model mutants refuted); every transition taken on real objects incl. interact() copy steps, failing sends, output arriving between a cancelled awaited call and the next one',
             'as C08', '5 C11', 'sendlog'),
     'C12': ('model_checking',
             'TLA+ model Run (the run() loop over the contract ExpectAbs against scripted child programs) checked by TLC; the real run() executed with run.spawn rebound to a scripted dialogue child, traces validated by TLC against ExpectTrace (contract + run() clauses: output exactly once, one answer per occurrence, callbacks with the state dictionary)',
@@ -61,26 +61,26 @@ CLAIMED = {
     'C15': ('model_checking',
             'TLA+ model Interact (flush pending, raw mode, two-way copy loop with escape search and filters, restore) checked by TLC over every cutting of keystrokes/output into loop iterations; every path of the TLC state graph replayed in-process on the real interact() (real inner pty child, outer pty as the user, injections placed before each select) and compared with the final state TLC computed',
             'TLC proves ChildGetsTypedUpToEscape / UserGetsPendingThenOutput / PendingConsumed / ModeRestored for escape absent/first/middle/last/repeated, filters on/off, escape None; 1,500 (quick) / all (thorough) graph paths are executed on the real code and the bytes each side received compared',
-            'small byte alphabet; sys.stdout redirected to the outer pty for the initial flush; select/poll alternate', '5 C15', 'interact'),
+            'the graph paths use a small byte alphabet; all byte values, multi-byte and undecodable text, bursts larger than one read, unicode objects with every error policy, the child\'s exit between read and write are exercised by payload runs judged by the property itself; sys.stdout redirected to the outer pty for the initial flush; select/poll alternate', '5 C15', 'interact'),
     'C16': ('model_checking',
             'TLA+ model Repl (run_command over ExpectAbs against a REPL environment with prompts sharing a prefix) checked by TLC for every chunking; the real REPLWrapper driven against a scripted REPL (blocking and awaited) with TLC trace validation (ExpectTrace: contract + C16 clauses), plus generated commands with known output on the real bash and python REPLs',
             'TLC proves OwnOutput / Usable for every command sequence and chunking in the bound; hundreds of command sequences through the real wrapper are judged by TLC (each expect call against the contract, each return value against the command\'s own output); real REPLs up to hundreds of KB',
-            'zsh not installed; large real outputs compared directly', '5 C16', 'repl'),
+            'zsh not installed; large real outputs compared directly; real bash (user rc files with scalar / array PROMPT_COMMAND, own PS2; command lines to 9 kB) and python (caller-chosen prompts of unequal length), blocking and awaited', '5 C16', 'repl'),
     'C14': ('model_checking',
             'TLA+ model AsyncExpect (expect_async + PatternWaiter on an asyncio loop/transport model, over ExpectImpl) checked by TLC for every arrival schedule; histories mixing blocking and awaited calls run through the real expect_async on a virtual-time asyncio loop with a hand-fed transport, traces validated by TLC against the contract ExpectAbs (ExpectTrace)',
             'TLC proves conservation (also of what the caller is given), no lost result, TIMEOUT only without occurrence, genuine/leftmost/lowest index on the awaited path; real awaited executions are judged event by event against the same contract the blocking path is bound to (C01-C04), so parity is decided by TLC',
-            'event loop / read transport semantics are those of harness/vloop.py (CPython 3.12); _async_pre_await.py not importable here', '5 C14', 'async'),
+            'event loop / read transport semantics are those of harness/vloop.py (CPython 3.12) for the TLC-validated histories; mixed blocking / awaited histories and calls cancelled from outside are also run on a real pty child under a real asyncio loop and compared with the all-blocking history; _async_pre_await.py not importable here', '5 C14', 'async'),
     'C17': ('model_checking',
             'TLA+ model Pxssh (login() as written - two-phase decision procedure, prompt synchronisation, set_unique_prompt - against a reactive ssh server at dialogue-token level) checked by TLC over every server configuration x options; the real login() run against a scripted server for every configuration, transcripts validated by TLC (PxsshTrace clauses) and compared with the model\'s prediction',
             'TLC proves the five invariants with the named deviations off and exhibits the witnesses of the two recorded findings with the code as it is; 2,800 (quick) / ~26,000 (thorough) real login() dialogues are judged by TLC clause by clause; the as-is model predicts result and client transcript of each',
-            'scripted ssh (no network); token-level model; virtual timeouts', '5 C17', 'pxssh'),
+            'scripted ssh (no network); token-level model; virtual timeouts; caller-supplied password_regex / original_prompt, slow servers, a second login through a jump host on the same object and prompt() with commands typed ahead are covered by trace validation only (no model prediction)', '5 C17', 'pxssh'),
     'C18': ('model_checking',
             'TLA+ model AnsiFsm (the ANSI parser table with parameter stack over 40 input classes) on top of Screen, checked by TLC exhaustively on tiny screens; one implementation test per transition of the dumped graph; chunk independence over TLC-simulated inputs in every split; random sequences on larger screens validated by TLC (ScreenAnsiTrace)',
-            'TLC proves Shape / CursorOnScreen / NoResidue / Total on 2x2..3x4; 411k (quick) transitions replayed on the real ANSI object; 69k splits incl. cuts inside escape sequences and multi-byte characters',
+            'TLC proves Shape / CursorOnScreen / NoResidue / Total on 2x2..3x4; 411k (quick) transitions replayed on the real ANSI object; 69k splits incl. cuts inside escape sequences and multi-byte characters; interleaved histories of 2-3 live terminals (one reference state per terminal in the trace spec); FsmLib: pexpect/FSM.py for every table over a small alphabet (1.16M states) + sessions of the real class judged by FsmTrace',
             'cell alphabet abstracted; numeric parameters saturate', '5 C18', 'screen'),
     'C19': ('model_checking',
             'TLA+ reference grid Screen (31 documented methods with explicit frame conditions, accessors as functions of the grid) checked by TLC; one implementation test per transition (1.2M quick) + every accessor in every graph state; random operation sequences on 24x80 etc. validated by TLC',
-            'every operation x argument class x state of tiny screens compared with the reference grid; accessors compared with the TLC table',
+            'every operation x argument class x state of tiny screens compared with the reference grid; accessors compared with the TLC table; every character operation repeated with an argument the screen refuses (state must be unchanged)',
             'where the documentation is silent the reference follows the code or is nondeterministic', '5 C19', 'screen'),
     'C20': ('model_checking',
             'TLA+ decision table PatternForms enumerated and checked for consistency by TLC; one implementation test per table row (MongoDB-style): same scripted stream under the form and under the reference pattern',
